@@ -99,6 +99,7 @@ type SpecFn struct {
 	PNames []string // recfn: parameter names
 	Body   *Expr    // recfn: defining equation, unfolded once per application term
 	Depth  int      // recfn[n]: unfolding depth (default 1)
+	Nat    bool     // recfn[nat]: result is never negative (the induction step is checked by the solver)
 }
 
 func newDB() *DB {
@@ -458,8 +459,12 @@ func (db *DB) loadContractFile(path, pkgPath string) error {
 			}
 			sf.Body = body
 			sf.Depth = 1
-			if len(tags) == 1 {
-				fmt.Sscanf(tags[0], "%d", &sf.Depth)
+			for _, tg := range tags {
+				if tg == "nat" {
+					sf.Nat = true
+				} else {
+					fmt.Sscanf(tg, "%d", &sf.Depth)
+				}
 			}
 			db.SpecFns[sf.Name] = sf
 		case "axiom":
